@@ -301,7 +301,7 @@ theorem resolveLoop_own (host : ID) (idx : Nat) (tags : List Nat) (t : Tbl) (c :
               split
               · exact allOwn_cons hal (ih _ _ _ hrest)
               · exact allOwn_cons hal (allOwn_cons hal
-                  (ih _ _ _ (tagsOK_set (v' := { v with q := [] }) hrest hv rfl)))
+                  (ih _ _ _ (tagsOK_set (v' := v.kept) hrest hv rfl)))
 
 theorem inner_of_InnerOK {n : Pkt} (h : InnerOK n = true) (hmd : hasFlag n.hd.flags flagMultiDevice = false) :
     ∀ v ∈ n.subs, hasFlag v.flags flagMultiDevice = false := by
@@ -476,7 +476,7 @@ theorem resolveLoop_ki (hash : ID → Nat) (host : ID) (idx : Nat) (tags : List 
             · dsimp only
               split
               · exact ih _ _ _
-              · have h1 : KI hash t (t.set tag { v with q := [] }) :=
+              · have h1 : KI hash t (t.set tag v.kept) :=
                   ⟨keeps_set_same hv rfl, fun hi => inv_set hi (hi tag v hv).1 (hi tag v hv).2⟩
                 exact h1.trans (ih _ _ _)
 
